@@ -85,6 +85,17 @@ def sig(x):
     return repr(x)
 
 
+def parse_cfg_checked(t):
+    """The language of the parsed grammar is a function of the text alone: it is compared with the language of the grammar that was written (reference
+    semantics), so that a parser that remembers something from earlier texts is noticed at the first call already."""
+    got = sig(CA.parse_simple_cfg(t["text"]))
+    want = ["words", sorted(RC.lang_upto(RC.reduce(t["spec"]), 3))]
+    if got != want:
+        raise Fail("history_dependent:parse_simple_cfg", "parse_simple_cfg(%r) gives a grammar with the words %r up to length 3, the written grammar has %r "
+                   "(the answer for this text depends on what was parsed before, or the parser is wrong)" % (t["text"], got[1][:6], want[1][:6]))
+    return got
+
+
 def text_sig(t):
     return sorted(" ".join(sorted(l.split()[2:])) + "|" + " ".join(l.split()[:2]) for l in t.strip().split("\n"))
 
@@ -168,6 +179,9 @@ REG = {
     "tm_simulate_word": (["tm", "w"], lambda T, w: sig(TA.tm_simulate_word(T, w, 25))),
     "tm_words_up_to_n": (["tm", "n"], lambda T, n: sig(TA.tm_words_up_to_n(T, min(n, 3), 60))),
     "print_tm": (["tm"], lambda T: text_sig(TA.print_tm(T))),
+    "parse_simple_cfg": (["cfg_text"], lambda t: parse_cfg_checked(t)),
+    "check_cfg_language_from_words": (["cfg_text", "wordset"], lambda t, ws: verdict(NB.check_cfg_language_from_words, t["text"], " ".join(sorted(w or "ε" for w in ws)), 3)),
+    "check_cfg_accepts_rejects": (["cfg_text", "wordset"], lambda t, ws: verdict(NB.check_cfg_accepts_rejects, t["text"], " ".join(sorted(w or "ε" for w in ws)[:2]), "")),
     "check_dfa_minimal": (["dfa", "dfa2"], lambda D, E: verdict(ND.check_dfa_minimal, DA.print_dfa(D), DA.print_dfa(E), 4)),
     "check_dfa_language_from_words": (["dfa", "dfa2"], lambda D, E: verdict(NB.check_dfa_language_from_words, DA.print_dfa(D), " ".join(sorted(w or "ε" for w in DA.dfa_words_up_to_n(E, 3))), 3, 0)),
     "check_nfa2dfa": (["nfa_text"], lambda N: verdict(NN.check_nfa2dfa, NA.print_nfa(N), DA.print_dfa(NA.nfa_to_dfa(N)))),
@@ -182,7 +196,7 @@ def build_args(case):
     objs, canons = [], []
     for k in kinds:
         a = case["args"][k]
-        if k in ("w", "n", "w1", "wl"):
+        if k in ("w", "n", "w1", "wl", "cfg_text"):
             objs.append(a)
             canons.append(None)
         else:
@@ -411,6 +425,20 @@ def op_cases(draw, tier, names=None):
             args[k] = draw(GR.trees(sigma, max_leaves=8))
         elif k == "cfg":
             args[k] = draw(GC.cfg_specs(max_vars=4, terms=tuple(sigma), simple=draw(st.booleans()), max_len=3))
+        elif k == "cfg_text":
+            # a grammar in the simple text format; the empty alternative is written with one of the two glyphs the format knows (or does not occur)
+            g = draw(GC.cfg_specs(max_vars=3, terms=tuple(sigma), simple=True, max_len=3))
+            # every variable has a rule (the format declares variables by their rules)
+            have = {A for A, _ in g["R"]}
+            g = dict(g, R=list(g["R"]) + [[A, [sigma[0]]] for A in g["V"] if A not in have])
+            glyph = draw(st.sampled_from(["_", "ε"]))
+            order = [g["S"]] + [v for v in g["V"] if v != g["S"]]
+            lines = []
+            for A in order:
+                alts = ["".join(rhs) or glyph for B_, rhs in g["R"] if B_ == A]
+                if alts:
+                    lines.append("%s -> %s" % (A, " | ".join(alts)))
+            args[k] = {"text": "\n".join(lines) or "%s -> %s" % (g["S"], glyph), "spec": g}
         elif k == "cnf":
             args[k] = draw(GC.cnf_specs(max_vars=4, terms=tuple(sigma), max_rules=8))
         elif k == "pda":
